@@ -165,3 +165,45 @@ Proof. intros T P l R H Hl. unfold parse_message. rewrite find_sub_fs, H.
   replace (Nat.eqb (List.length (text l)) (List.length (text l) + S (List.length R))) with false by (symmetry; apply Nat.eqb_neq; lia).
   rewrite nth_error_app_len. change (negb (is_cont dq)) with true. cbv iota. rewrite firstn_app_len. cbn [obind].
   rewrite unescape_atoms by exact Hl. reflexivity. Qed.
+
+(* ------------------------------------------------------------------ the sub-language inside the canonical / loop theorems *)
+Lemma atom_esc_not_cont : forall e, atom_ok (Esc e) = true -> is_cont e = false.
+Proof. intros e Ha. cbn [atom_ok] in Ha.
+  destruct (Ascii.eqb_spec e dq) as [E|]; [subst; reflexivity|]. destruct (Ascii.eqb_spec e sq) as [E|]; [subst; reflexivity|].
+  destruct (Ascii.eqb_spec e "n") as [E|]; [subst; reflexivity|]. destruct (Ascii.eqb_spec e "t") as [E|]; [subst; reflexivity|].
+  destruct (Ascii.eqb_spec e bs) as [E|]; [subst; reflexivity|]. discriminate Ha. Qed.
+Lemma closes_go_atoms : forall l rest, forallb atom_ok l = true -> closes_go (text l ++ rest) false = closes_go rest false.
+Proof. induction l as [|a l IH]; intros rest H; [reflexivity|].
+  cbn [forallb] in H. apply andb_true_iff in H as [Ha Hl]. destruct a as [c|e].
+  - cbn [atom_ok] in Ha. apply andb_true_iff in Ha as [H1 H2]. apply negb_true_iff in H1. apply negb_true_iff in H2.
+    cbn [text flat_map atext app closes_go]. fold (text l). rewrite H1, H2. destruct (is_cont c); apply IH; exact Hl.
+  - pose proof (atom_esc_not_cont e Ha) as Hc.
+    cbn [text flat_map atext app closes_go]. fold (text l). change (is_cont bs) with false. rewrite Ascii.eqb_refl. cbv iota.
+    rewrite Hc. apply IH. exact Hl. Qed.
+Lemma closes_atoms : forall l, forallb atom_ok l = true -> closes (text l) = true.
+Proof. intros l H. unfold closes. rewrite <- (app_nil_r (text l)), closes_go_atoms by exact H. reflexivity. Qed.
+(* the value the specification (rust_body_value) gives the literal is the atoms' value *)
+Lemma rust_value_atoms : forall l, forallb atom_ok l = true -> rust_body_value (text l ++ [dq]) = Some (value l).
+Proof. induction l as [|a l IH]; intros H.
+  - cbn [text flat_map app rust_body_value]. rewrite Ascii.eqb_refl. reflexivity.
+  - cbn [forallb] in H. apply andb_true_iff in H as [Ha Hl]. specialize (IH Hl). destruct a as [c|e].
+    + cbn [atom_ok] in Ha. apply andb_true_iff in Ha as [H1 H2]. apply negb_true_iff in H1. apply negb_true_iff in H2.
+      cbn [text flat_map atext app rust_body_value value map aval]. fold (text l). fold (value l). rewrite H1, H2, IH. reflexivity.
+    + cbn [text flat_map atext app rust_body_value value map]. fold (text l). fold (value l).
+      change (Ascii.eqb bs dq) with false. rewrite Ascii.eqb_refl. cbv iota. rewrite IH. cbn [atom_ok] in Ha. cbn [aval].
+      destruct (Ascii.eqb_spec e dq) as [E|]; [subst; reflexivity|]. destruct (Ascii.eqb_spec e sq) as [E|]; [subst; reflexivity|].
+      destruct (Ascii.eqb_spec e "n") as [E|]; [subst; reflexivity|]. destruct (Ascii.eqb_spec e "t") as [E|]; [subst; reflexivity|].
+      destruct (Ascii.eqb_spec e bs) as [E|]; [subst; reflexivity|]. discriminate Ha. Qed.
+
+(* a literal of the sub-language whose source text has no closing parenthesis and none of the seven keywords is a
+   message the canonical and the loop theorems accept, the message they return is the literal's value, and that
+   is also the value the specification side assigns to the declared literal *)
+Theorem atoms_in_loop : forall l, lit_ok l = true -> lacks ")" (text l) = true ->
+  forallb (fun kw => negb (contains kw (text l))) kws = true ->
+  okm (Some (text l)) /\ option_map unescape (Some (text l)) = Some (value l) /\ lit_value (text l) = value l.
+Proof. intros l Hl Hp Hk.
+  assert (Hok : forallb atom_ok l = true) by (pose proof Hl as Hl'; unfold lit_ok in Hl'; repeat (apply andb_true_iff in Hl' as [Hl' ?]); exact Hl').
+  split; [|split].
+  - cbn [okm]. unfold body_ok. rewrite Hp, (closes_atoms l Hok), Hk. reflexivity.
+  - cbn [option_map]. rewrite (unescape_atoms l Hl). reflexivity.
+  - unfold lit_value. rewrite (rust_value_atoms l Hok). reflexivity. Qed.
